@@ -29,10 +29,11 @@ VARIABLES tr, l,
           stalled,    \* the current incarnation had a failed write while another task kept the target's entity alive
           ackts,      \* pack id -> <<ms, logical>>: emitted end time of the last effective downstream write that carried the pack
           okc03,
+          ndrops,     \* collection name -> number of drop requests that took effect so far (all incarnations)
           faulty,     \* an injected fault is active (armed call fault, refused describe, failing stream open)
           infofail,   \* collections the downstream currently refuses to describe: their replication cannot be started
           okc05, okc06, kfused
-vars == <<tr, l, acked, delivered, prevStore, prevApi, eof, batch, lost, stalled, ackts, okc03, faulty, infofail, okc05, okc06, kfused>>
+vars == <<tr, l, acked, delivered, prevStore, prevApi, eof, batch, lost, stalled, ackts, okc03, ndrops, faulty, infofail, okc05, okc06, kfused>>
 
 Params == Traces[tr].params
 Catalog == Params.catalog
@@ -41,7 +42,7 @@ TaskList == Params.tasks
 
 TInit == /\ tr \in 1..Len(Traces) /\ l = 1
          /\ acked = {} /\ delivered = <<>> /\ prevStore = [tasks |-> <<>>, pos |-> <<>>] /\ prevApi = <<>>
-         /\ eof = {} /\ batch = {} /\ lost = {} /\ stalled = FALSE /\ ackts = <<>> /\ okc03 = TRUE /\ faulty = <<FALSE, "">> /\ infofail = {} /\ okc05 = TRUE /\ okc06 = TRUE /\ kfused = {}
+         /\ eof = {} /\ batch = {} /\ lost = {} /\ stalled = FALSE /\ ackts = <<>> /\ okc03 = TRUE /\ ndrops = <<>> /\ faulty = <<FALSE, "">> /\ infofail = {} /\ okc05 = TRUE /\ okc06 = TRUE /\ kfused = {}
 
 (* ---------------- catalog helpers ---------------- *)
 CollById(id) == Catalog[CHOOSE i \in 1..Len(Catalog) : Catalog[i].id = id]
@@ -228,6 +229,19 @@ DropIssuedOK(e) ==
          /\ \E i \in 1..Len(e.log) : e.log[i].ev = "ack" /\ e.log[i].ok /\ \E k \in 1..Len(e.log[i].ids) : e.log[i].ids[k] = pk.id) =>
            Cardinality({i \in 1..Len(e.log) : e.log[i].ev = "ddl" /\ e.log[i].kind = "dropcollection" /\ e.log[i].name = c.name}) = 1
 
+\* "exactly one downstream drop request": over the whole history - restarts and resumes included - at most one drop request
+\* per collection takes effect.  Known finding C04_kafka_drop_again: with a Kafka target (no target catalog) the source
+\* catalog still lists the dropped collection at every later start, the channel manager takes it for "dropped upstream, present
+\* downstream" and generates its drop again although the persisted checkpoint is marked as dropped
+RECURSIVE CountDrops(_, _, _)
+CountDrops(lg, i, nd) ==
+    IF i > Len(lg) THEN nd
+    ELSE IF lg[i].ev = "ddl" /\ lg[i].kind = "dropcollection" /\ lg[i].ok
+           THEN CountDrops(lg, i + 1, [n \in DOMAIN nd \cup {lg[i].name} |-> IF n = lg[i].name THEN (IF n \in DOMAIN nd THEN nd[n] ELSE 0) + 1 ELSE nd[n]])
+           ELSE CountDrops(lg, i + 1, nd)
+KafkaTarget == "downstream" \in DOMAIN Params /\ Params.downstream = "kafka"
+DropAtMostOnce(nd) == \A n \in DOMAIN nd : nd[n] <= 1 \/ (KFOn("C04_kafka_drop_again") /\ KafkaTarget)
+
 (* ---------------- step ---------------- *)
 TStep ==
     /\ l <= Len(Traces[tr].events)
@@ -256,6 +270,8 @@ TStep ==
               nb == (IF e.op = "deliver" /\ e.res = "ok" THEN batch \cup {e.id} ELSE batch) IN
           /\ ((P("C14") /\ ~Crashed(e.log)) => LoopExitOK(e, nb))
           /\ (P("C04") => DropIssuedOK(e))
+          /\ ndrops' = CountDrops(e.log, 1, ndrops)
+          /\ (P("C04") => DropAtMostOnce(ndrops'))
           /\ batch' = IF e.op \in {"boot", "restart", "kill"} \/ Crashed(e.log) THEN {}
                        ELSE IF ackedIds # {} \/ FailedOwners(e.log) # {} THEN {} ELSE nb
           /\ lost' = IF FailedOwners(e.log) # {} /\ ~Crashed(e.log) THEN lost \cup (nb \ acked') ELSE lost
@@ -270,6 +286,8 @@ TStep ==
                             THEN {"C06_batch_failure_pauses_trigger_task"} ELSE {})
                      \cup (IF l = Len(Traces[tr].events) /\ P("C05") /\ KFOn("C05_write_loop_exits") /\ stalled' /\ ~AtLeastOnce(e.api, eof', acked', FALSE, batch', lost')
                              THEN {"C05_write_loop_exits"} ELSE {})
+                     \cup (IF P("C04") /\ KFOn("C04_kafka_drop_again") /\ KafkaTarget /\ \E n \in DOMAIN ndrops' : ndrops'[n] > 1
+                             THEN {"C04_kafka_drop_again"} ELSE {})
                      \cup kfused
     /\ l' = l + 1 /\ tr' = tr
     /\ (Diag => PrintT("AT " \o ToString(Traces[tr].plan) \o " " \o ToString(l)))
